@@ -110,9 +110,16 @@ func Register[T any](el *EventLoop, callback EventHandler[T], opts ...HandlerOpt
 		el.handlers[t][i] = h
 	}
 
+	unregistered := false
 	return func() {
 		el.mut.Lock()
 		defer el.mut.Unlock()
+		// the slot may have been given to another handler since the first call
+		// (TimeoutContext cancels its view context twice after a timeout event)
+		if unregistered {
+			return
+		}
+		unregistered = true
 		el.handlers[t][i].callback = nil
 	}
 }
